@@ -266,3 +266,13 @@ func isProdPkg(path string) bool {
 	}
 	return true
 }
+
+// sizes returns the type sizes of the loaded configuration.
+func (p *Prog) sizes() types.Sizes {
+	for _, pk := range p.Pkgs {
+		if pk.TypesSizes != nil {
+			return pk.TypesSizes
+		}
+	}
+	return types.SizesFor("gc", p.Arch)
+}
